@@ -555,6 +555,10 @@ func TestC03StartFailure(t *testing.T) {
 		workers := rapid.SampledFrom([]int{1, 2, 8}).Draw(rt, "workers")
 		attempts := rapid.IntRange(1, 3).Draw(rt, "failedAttempts")
 		shutdownBetween := rapid.Bool().Draw(rt, "shutdownBetween")
+		// what is done with the service between the failed attempts: it never started, so its
+		// settings may be changed and every other call is refused as not-started
+		between := rapid.SampledFrom([]string{"", "setworkers", "setinch", "setqueue", "setowned", "resetall", "reset", "token", "queryevent", "event", "with"}).Draw(rt, "between")
+		onError := rapid.Bool().Draw(rt, "onError")
 		var msg string
 		func() {
 			defer func() {
@@ -566,8 +570,59 @@ func TestC03StartFailure(t *testing.T) {
 				s := res.NewService("svc")
 				s.SetWorkerCount(workers)
 				s.SetLogger(nil)
+				if onError {
+					s.SetOnError(func(*res.Service, string) {})
+				}
 				s.Handle("g.$id", res.Call("do", func(r res.CallRequest) { r.OK(nil) }))
 				s.AddListener("late.$id", func(*res.Event) {})
+				doBetween := func() {
+					defer func() {
+						if v := recover(); v != nil {
+							msg = fmt.Sprintf("%s on the service whose Serve call failed to start panicked: %v", between, v)
+						}
+					}()
+					switch between {
+					case "setworkers":
+						s.SetWorkerCount(workers + 1)
+					case "setinch":
+						s.SetInChannelSize(16)
+					case "setqueue":
+						s.SetQueueGroup("q")
+					case "setowned":
+						s.SetOwnedResources([]string{"svc.>"}, []string{"svc.>"})
+					case "resetall":
+						s.ResetAll()
+					case "reset":
+						s.Reset([]string{"svc.>"}, nil)
+					case "token":
+						s.TokenEvent("cid", nil)
+						s.TokenReset("tid", "a")
+					case "queryevent", "event":
+						r, err := s.Resource("svc.g.1")
+						if err != nil {
+							msg = "Resource on a stopped service: " + err.Error()
+							return
+						}
+						if between == "event" {
+							r.Event("custom", nil)
+						} else {
+							called := 0
+							r.QueryEvent(func(q res.QueryRequest) {
+								if q != nil {
+									msg = "query callback called with a request on a service that never started"
+								}
+								called++
+							})
+							if called != 1 {
+								msg = fmt.Sprintf("QueryEvent on a service that is not started called its callback %d times, expected once with nil", called)
+							}
+						}
+					case "with":
+						// (With reports unknown resources only; the callback is dropped silently)
+						_ = s.With("svc.g.1", func(res.Resource) { msg = "a With callback ran on a service that never started" })
+						synctest.Wait()
+					}
+				}
 				for a := 0; a < attempts; a++ {
 					conn := fakeconn.New()
 					ret := make(chan error, 1)
@@ -599,6 +654,9 @@ func TestC03StartFailure(t *testing.T) {
 							return
 						}
 					}
+					if doBetween(); msg != "" {
+						return
+					}
 				}
 				// the missing handler is registered: the service must be servable
 				s.Handle("late.$id", res.Call("do", func(r res.CallRequest) { r.OK(nil) }))
@@ -629,9 +687,9 @@ func TestC03StartFailure(t *testing.T) {
 				<-ret
 			})
 		}()
-		ev.Case(true, evid.Hash("startfail", workers, attempts, shutdownBetween), "start-failure")
+		ev.Case(true, evid.Hash("startfail", workers, attempts, shutdownBetween, between, onError), "start-failure")
 		if msg != "" {
-			rt.Fatalf("%s (workers %d, failed attempts %d, Shutdown in between %v)", msg, workers, attempts, shutdownBetween)
+			rt.Fatalf("%s (workers %d, failed attempts %d, Shutdown in between %v, then %q, OnError %v)", msg, workers, attempts, shutdownBetween, between, onError)
 		}
 	})
 }
